@@ -359,9 +359,13 @@ class PiecewiseConstantBirthDeath(Distribution):
                     y,
                     indices_y,
                 )
+                # the factor of a rho-tip is not used (masked below) and can be zero,
+                # e.g. r = 0 with rho = 1 at the present: keep its logarithm finite
+                sampled = self.psi.gather(-1, indices_y) * (r + (1.0 - r) * p0)
+                sampled = torch.where(is_rho_tip, torch.ones_like(sampled), sampled)
                 log_p += (
                     (
-                        torch.log(self.psi.gather(-1, indices_y) * (r + (1.0 - r) * p0))
+                        torch.log(sampled)
                         - self.log_q(
                             A.gather(-1, indices_y),
                             B.gather(-1, indices_y),
@@ -372,9 +376,11 @@ class PiecewiseConstantBirthDeath(Distribution):
                     * (~is_rho_tip)
                 ).sum(-1)
             else:
+                psi = self.psi.gather(-1, indices_y)
+                psi = torch.where(is_rho_tip, torch.ones_like(psi), psi)
                 log_p += (
                     (
-                        self.psi.log().gather(-1, indices_y)
+                        psi.log()
                         - self.log_q(
                             A.gather(-1, indices_y),
                             B.gather(-1, indices_y),
